@@ -370,7 +370,7 @@ Proof.
   destruct pname as [[|c n]|].
   - injection H as <- <-. exact Base.
   - destruct (str_eqb (c :: n) (name_from_path f)) eqn:E; [injection H as <- <-; exact Base|].
-    destruct (name_too_long (path_from_name (strip (c :: n)) (suffix f))); [discriminate|].
+    destruct (name_too_long (path_from_name (strip (c :: n)) (suffix f)) || bad_target (path_from_name (strip (c :: n)) (suffix f))); [discriminate|].
     injection H as <- <-. split; [reflexivity|]. split; [reflexivity|].
     split; [apply assoc_rename_target with (t := dump_items tracks), assoc_write_same|].
     split.
@@ -398,7 +398,7 @@ Lemma save_name_lemma f c n tracks d f' n' tr d' :
   n' = repl_sep (strip (c :: n)) /\ suffix f' = suffix f.
 Proof.
   intros H E Hs He. unfold save, save_with in H. rewrite E in H.
-  destruct (name_too_long _); [discriminate|]. injection H as <- <- <- <-.
+  destruct (name_too_long _ || bad_target _); [discriminate|]. injection H as <- <- <- <-.
   apply name_roundtrip_lemma; assumption.
 Qed.
 
